@@ -477,6 +477,30 @@ def check_path(ex, F, unit, sim, kind, r, res, known_classes):
     res.obligations += 1
     reach = reachable(pre['state'], proc_flags)
     res.transitions.add((pre['state'], ''.join(sorted(f[0] for f in flags)), post['state'], info['arr']))
+    # transitions that RFC 9293 ties to "our SYN / FIN has been acknowledged" need SEG.ACK = SND.NXT (everything sent, including the
+    # SYN/FIN, is acknowledged); checked when the forged segment is the only one processed (empty out-of-order queue)
+    if not pre['heap_flags'] and 'ACK' in flags and 'RST' not in flags:
+        fack = info['forged'][3]
+        needs_full_ack = None
+        if info['arr'] == 'Close' and pre['state'] == 'LastAck':
+            needs_full_ack = 'LAST-ACK was released'
+        elif info['arr'] == 'Ok' and (pre['state'], post['state']) in (('FinWait1', 'FinWait2'), ('FinWait1', 'TimeWait'), ('Closing', 'TimeWait')):
+            needs_full_ack = f'{pre["state"]} -> {post["state"]}'
+        elif info['arr'] == 'Ok' and pre['state'] == 'SynReceived' and post['state'] in ('Established', 'CloseWait'):
+            needs_full_ack = f'{pre["state"]} -> {post["state"]}'
+        if needs_full_ack:
+            res.obligations += 1
+            if pre['state'] == 'SynReceived':
+                # our SYN is acknowledged: SND.UNA < SEG.ACK <= SND.NXT
+                d = ex.binop('Sub', fack, pre['snd']['una'], False)
+                cond = b_and(ex.binop('Ge', d, U32(1), False), ex.binop('Le', d, ex.binop('Sub', pre['snd']['nxt'], pre['snd']['una'], False), False))
+            else:
+                cond = ex.binop('Eq', fack, pre['snd']['nxt'], False)
+            okv, m = _valid(ex, cond)
+            if not okv:
+                res.violations.append(mk_violation(ex, sim, unit, f'c03:transition-without-acknowledgment-of-syn-or-fin:{pre["state"]}',
+                                                   f'{needs_full_ack} by a segment whose acknowledgment number does not cover our SYN/FIN (SEG.ACK != SND.NXT)', 'c03', model=m))
+                return
     if info['arr'] == 'Close':
         if not may_delete(reach, proc_flags):
             res.violations.append(mk_violation(ex, sim, unit, f'c03:delete-without-rst-or-final-ack:{pre["state"]}',
